@@ -19,6 +19,18 @@ spec -> code : SphereMC.tla checks the lattice theorems of Sphere.tla (symmetry,
                displaced from the lattice longitude by an exactly known amount; only the classes of pairs
                whose separation is an exactly known function of the displacement are judged (the trace
                module re-checks the claimed class), the tolerance applies to the angle of the ACTUAL doubles.
+               WORLD (SphereWorld.tla, class W): the outcome of eq2xyz / xyz2eq / sphdist / gcirc depends on the
+               arguments only - not on earlier calls of any entry point in the process, nor on what the caller did to
+               results it was handed or to its argument buffers.  TLC checks the world machine (heap of cells + a
+               module-level memo of the shared conversion kernels) for the faithful mechanisms on all sessions of
+               <= 3 steps and finds every deviating mechanism (memo handing out its own storage; key merging twin
+               points; key ignoring the unit).  The exported sessions (writer call, Scribble(result) / ScribbleArgs /
+               nothing, reader call; also reader-first) cover every ordered pair of entry points x forms (python scalar,
+               numpy scalar, 1-element array) x relation (same point, twin point 2 eps away, same numbers with the
+               other unit).  Each session runs in ONE fresh process (forked from a helper that imported esutil and
+               called nothing); every call is compared with the same call as the only call of a fresh process
+               (SphereWorldTrace.tla: world_independent, results_are_callers, arguments_unchanged, no_error) and every
+               sphdist / gcirc call on-unit is also judged by the exact lattice separation (SphereTrace.tla).
 code -> spec : every returned number is *projected* onto the lattice with exact Fraction / 60-digit
                decimal arithmetic (vh.spherelat) - "the lattice values within the stated tolerance
                of what came back" - and SphereTrace.tla, run by TLC, recomputes SepGC / CosSep from
@@ -943,6 +955,9 @@ def run(ctx):
     pairs, ngc = build_pairs(exp, ctx.quick)
     if ngc < 100 or len(pairs) - ngc < 100:
         raise MachineryError("too few pairs exported (%d gc, %d rs)" % (ngc, len(pairs) - ngc))
+    # the world pipeline ran alongside the TLC runs above; it must be over before this process forks its worker pool
+    wres = wfut.result() if WORLD else None
+    wpool.shutdown()
     pairs = pmap(add_theta, pairs)
     pid = {p["id"]: p for p in pairs}
     gpts = exp["GCPTS"][0]["pts"]
@@ -1049,9 +1064,8 @@ def run(ctx):
     # 4b. sessions over the entry points in one process (class W)
     wstats = {}
     if WORLD:
-        wp, wsessions, wrecs_ = wfut.result()
+        wp, wsessions, wrecs_ = wres
         wstats = world_judge(ctx, wp, wsessions, recs=wrecs_)
-    wpool.shutdown()
     if WORLD:
         good_s = [{"op": "call", "err": "none", "same": True, "kept": True, "argsok": True}, {"op": "scribble", "h": 1},
                   {"op": "call", "err": "none", "same": True, "kept": True, "argsok": True}]
@@ -1136,6 +1150,17 @@ def run(ctx):
                        "at every tile position is judged by the exact lattice value of that position, and the call on the "
                        "tile alone likewise",
                        "accuracy at generic doubles off both lattices is not decided (no transcendental oracle in TLA+)"]
+    if WORLD:
+        ctx.rule += ("; world: %d sessions exported from SphereWorld.tla (ordered pairs of eq2xyz / xyz2eq / sphdist / gcirc x forms "
+                     "scalar / numpy scalar / 1-element array x same point / twin point / same numbers other unit x "
+                     "scribble result / scribble arguments / none / reader-first), each in one fresh process, every call compared "
+                     "with the same call alone in a fresh process" % len(wsessions))
+        ctx.trusted_base.append("world sessions: os.fork of a helper process that imported esutil and called nothing = a fresh world; "
+                                "byte comparison of (type, dtype, shape, data) of results")
+        ctx.assumptions.append("the entry points are deterministic functions of their arguments in a fresh process (the session verdict "
+                               "'world_independent' is a relation between outputs of the same implementation: in-session result = "
+                               "fresh-process result, bit for bit); absence of a rejection proves nothing about caches keyed on inputs "
+                               "outside the exported collisions")
 
 
 def replay_world(ctx, case):
